@@ -556,6 +556,35 @@ def construct(env, how: str):
     return env.cls("CODATA" + how)
 
 
+def construct_on_dead(env, how: str, dead: str, tries: int = 150):
+    """A context of set `how` that lives at the ADDRESS of a discarded, fully used context of set `dead`: build the other one,
+    look every name up on it the way the sweep does (get / get(return_tuple=True) / attribute / pc[...]), drop it, collect, build
+    the wanted one; repeat until the allocator hands the freed block out again (usual within a few tries, not certain: after
+    `tries` attempts the last one is used as it is).  Nothing remembered about a dead instance may be served to a live one."""
+    import gc
+
+    names = [n for n, _ in env.specs[SET_OF[dead]].names()]
+    c = None
+    for _ in range(tries):
+        d = construct(env, dead)
+        for n in names:
+            for f in (lambda: d.get(n), lambda: d.get(n, return_tuple=True), lambda: getattr(d, mangle(n)), lambda: d.pc[n.lower()]):
+                try:
+                    f()
+                except Exception:  # noqa
+                    pass
+        addr = id(d)
+        del d, f
+        gc.collect()
+        c = construct(env, how)
+        if id(c) == addr:
+            env.dead_reuse = getattr(env, "dead_reuse", 0) + 1
+            return c
+        del c
+        c = None
+    return construct(env, how)
+
+
 def snapshot(c):
     """Everything the property looks at on one instance, by value: pc in order + the float attributes."""
     if c is None:
@@ -641,7 +670,7 @@ def ensure_sequence(env, seq, upto: int):
         step = seq["steps"][st["done"]]
         if step["do"] == "new":
             try:
-                c = construct(env, step["how"])
+                c = construct_on_dead(env, step["how"], step["dead"]) if step.get("dead") else construct(env, step["how"])
             except Exception as e:  # noqa  -- a context that cannot be built: nothing is retrievable from it
                 c = None
                 st.setdefault("errors", {})[len(st["inst"])] = type(e).__name__
@@ -659,7 +688,8 @@ def describe_history(seq, upto: int) -> str:
     steps = []
     for i, stp in enumerate(seq["steps"][: upto + 1]):
         if stp["do"] == "new":
-            steps.append(f"#{i} construct PhysicalConstantsContext({'' if stp['how'] == 'default-arg' else repr('CODATA' + stp['how'])})")
+            steps.append(f"#{i} construct PhysicalConstantsContext({'' if stp['how'] == 'default-arg' else repr('CODATA' + stp['how'])})"
+                         + (f" at the address of a discarded, fully used CODATA{stp['dead']} context" if stp.get("dead") else ""))
         else:
             steps.append(f"#{i} {stp['what']}({stp.get('arg')!r}) on {stp['on'] if isinstance(stp['on'], str) else 'instance ' + str(stp['on'])}")
     return (
@@ -699,6 +729,9 @@ def make_sequences(rng, ctx: Ctx):
         [U("default", "repr"), N("2018"), U("2018", "repr"), N("default-arg")],
         [U("default", "siblings"), N("2014"), N("2018")],
         [N("2018"), U(0, "ureg"), U(0, "conv"), N("2018"), U("default", "aux"), N("2014"), N("2018")],
+    ] + [
+        # a context built at the address of a discarded, fully used context of the OTHER set (see construct_on_dead)
+        [{"do": "new", "how": "2018", "dead": "2014"}, {"do": "new", "how": "2014", "dead": "2018"}, {"do": "new", "how": "default-arg", "dead": "2018"}],
     ] + [
         # build, look everything up, drop, build the OTHER set (address reuse after garbage collection is likely, not certain: repeated)
         [N("2014"), U(0, "forget"), N("2018"), U(1, "forget"), N("2014"), U(2, "forget"), N("2018")] for _ in range(3)
@@ -1023,6 +1056,9 @@ def run(ctx: Ctx) -> Outcome:
             out.count("stream:construction-sequence:" + case["seqop"])
             if case["seqop"] == "keys":
                 hist = [SET_OF[s_["how"]] for s_ in case["seq"]["steps"][: case["upto"]] if s_["do"] == "new"]
+                if case["seq"]["steps"][case["upto"]].get("dead"):
+                    out.count("seq:built-at-dead-address:attempted")
+                    out.distribution["seq:built-at-dead-address:address-reused"] = getattr(env, "dead_reuse", 0)
                 out.count("seq:built-" + case["spec"] + "-after-" + ("nothing" if not hist else "+".join(sorted(set(hist)))))
                 out.nontrivial(("seq", tuple(case["seq"]["prior"]), tuple(s_.get("how", s_.get("what")) for s_ in case["seq"]["steps"][: case["upto"] + 1])))
             elif case["seqop"] == "use":
